@@ -48,12 +48,15 @@ def attr_obj(a):
 
 def cell_kinds(enc):
     wide = ("你", "x") if enc == "utf-8" else ("é", "x")
-    return [(" ", None), ("a", None), ("b", "x"), (" ", "x"), wide, ("┌", None), ("┐", "x"), ("c", "so"), (" ", "so"), ("d", "u"),
-            ("e", AS_UL), (" ", AS_SO), ("f", AS_PLAIN), (" ", "ul")]
+    out = [(" ", None), ("a", None), ("b", "x"), (" ", "x"), wide, ("┌", None), ("┐", "x"), ("c", "so"), (" ", "so"), ("d", "u"),
+           ("e", AS_UL), (" ", AS_SO), ("f", AS_PLAIN), (" ", "ul")]
+    if enc == "utf-8":
+        out.append(("g\u0301", None))  # a base character with a combining mark: one cell, two code points
+    return out
 
 
 def cw(ch, enc):
-    return W.cwidth(ch)
+    return W.swidth(ch)
 
 
 _ROWS: dict = {}
@@ -522,7 +525,9 @@ def html_task(task, ctx: Ctx):
                         continue
                     col = 0
                     for (ch, f1, b1), (_c2, f2, b2) in zip(a, b):
-                        wch = max(W.cwidth(ch), 1) if ch != "" else 1
+                        wch = W.cwidth(ch)
+                        if wch == 0:
+                            continue  # a combining mark belongs to the cell before it
                         if (f1, b1) != (f2, b2):
                             diffs.append((y, col, wch))
                         col += wch
